@@ -12,13 +12,14 @@ RULE = ("EXHAUSTIVE: for rule in {OneOfMany, AtMostOne, AnyOfMany} x n in 1..5 s
         "installed with reset_selected_values, then EVERY operation is applied - client write On/Off to one switch (real "
         "newSwitchVector through the real Router), client writes naming 2 and 3 switches with every value combination, driver "
         ".value= / .bool_value= on every switch, selected_value= for every switch and selected_values= for every subset; every client write also with an injected fault (a Change handler "
-        "raises, delivery to a client raises) and with a Write handler that prevents the default and then publishes the vector as Busy. After each "
+        "raises, delivery to a client raises) and with a Write handler that prevents the default and then publishes the vector as Busy; On/Off in foreign spellings (ON, on, padded, 1, True) as client write and as "
+        "assignment (refusal is fine; what is stored or published must be a protocol value and satisfy the rule). After each "
         "operation the state tuple and the children of every setSwitchVector published during it are judged against the rule "
         "invariants. non-trivial = every (node, operation) pair; distinct = hash(rule, n, node, operation)")
 ASSUMPTIONS = ["the exact successor of a multi-switch write is left open (only the invariants are demanded)",
                "bulk selection of several switches under OneOfMany/AtMostOne must keep the invariants and must not raise"]
 REQUIRED_EVENTS = ["states", "transitions", "published_updates_judged", "client_writes", "driver_assignments", "bulk_selections",
-                   "client_writes_with_injected_fault", "client_writes_prevented_by_a_write_handler"]
+                   "client_writes_with_injected_fault", "client_writes_prevented_by_a_write_handler", "writes_in_a_foreign_spelling"]
 EXHAUSTIVE_NOTE = "the complete reachable state graph for every rule, 1..5 switches (thorough: 1..7) and every initial configuration, every operation on every node"
 SHARDED = True
 RULES = ["OneOfMany", "AtMostOne", "AnyOfMany"]
@@ -46,6 +47,12 @@ def operations(n):
     for r in range(n + 1):
         for sub in itertools.combinations(range(n), r):
             ops.append(("selecteds", sub))
+    # switch states in a spelling the protocol does not have: refusing them is fine (any exception), but whatever is stored or
+    # published afterwards must be a protocol value and must satisfy the rule, reading On/Off as a tolerant client would
+    for i in range(n):
+        for sp in ("ON", "on", "OFF", "oN", " On", "On ", "1", "True"):
+            ops.append(("spelled-client", i, sp))
+            ops.append(("spelled-value", i, sp))
     # client writes during which something fails AFTER the rule was applied (a Change handler of the driver raises,
     # delivery of the update to a client raises): the write is contained by the driver, the rule must still hold
     for op in list(ops):
@@ -146,8 +153,32 @@ def explore(ctx, rule, n, init, explored=None):
             case = dict(cfg, node=list(node), op=[op[0]] + [list(x) if isinstance(x, tuple) else x for x in op[1:]])
             ctx.count("transitions")
             ctx.count({"client1": "client_writes", "clientN": "client_writes", "value": "driver_assignments", "bool": "driver_assignments",
-                       "selected": "bulk_selections", "selecteds": "bulk_selections", "fault-change": "client_writes", "fault-delivery": "client_writes", "fault-veto": "client_writes"}[op[0]])
+                       "selected": "bulk_selections", "selecteds": "bulk_selections", "fault-change": "client_writes", "fault-delivery": "client_writes", "fault-veto": "client_writes",
+                       "spelled-client": "client_writes", "spelled-value": "driver_assignments"}[op[0]])
             ctx.case_fast((rule, n, node, op))
+            if op[0].startswith("spelled-"):
+                ctx.count("writes_in_a_foreign_spelling")
+                try:
+                    if op[0] == "spelled-client":
+                        from indi import message as M
+                        from indi.message import one_parts
+                        router.process_message(M.NewSwitchVector(device="DEV", name="SW", children=(one_parts.OneSwitch(name=f"S{op[1]}", value=op[2]),)), sender=rec)
+                    else:
+                        getattr(vec, f"s{op[1]}").value = op[2]
+                except Exception:
+                    ctx.count("foreign_spellings_refused")
+                stored = [getattr(vec, f"s{i}")._value for i in range(n)]
+                shown = [(type(m).__name__, [c.value for c in m.children]) for m in rec.received if type(m).__name__ == "SetSwitchVector"]
+                for what, vals in [("state", stored)] + [("published", v) for _, v in shown]:
+                    tol = tuple(str(getattr(v, "value", v)).strip().lower() == "on" for v in vals)
+                    bad = judge_state(rule, node, tol) if len(tol) == n else None
+                    if bad:
+                        ctx.violate(f"{what}:{bad}:{rule}:{op[0]}", f"{rule}: {op} took {node} to {what} {vals!r}", case)
+                        break
+                    if any(not (v == "On" or v == "Off") for v in vals):
+                        ctx.violate(f"{what}:switch-value-outside-the-protocol-vocabulary:{op[0]}", f"{rule}: {op} in {node}: {what} {vals!r}", case)
+                        break
+                continue
             fault = None
             if op[0].startswith("fault-"):
                 fault = op[0][6:]
